@@ -313,6 +313,15 @@ def box_exprs(quick):
         for n in (1, 2):
             for left in (False, True):
                 out.append("Curry(Box('g', %s, y), %d, %s)" % (dom, n, left))
+    # generic boxes and CCG words, with empty and non-empty domains, over the type menu
+    menu = ["Ty()", "x", "(x @ y)", "(x << y)", "(y >> x)", "((x << y) << y)", "(x << y) @ y", "(y >> (x << y))"]
+    for cod in menu:
+        out.append("CcgWord('w', %s)" % cod)
+        for dom in menu:
+            out.append("Box('f', %s, %s)" % (dom, cod))
+            out.append("CcgWord('w', %s, dom=%s)" % (cod, dom))
+    from mc import zoo
+    out += zoo.entries("biclosed")
     return out
 
 
